@@ -32,7 +32,7 @@ Variants(d) ==
 
 Allowed_(g, ins) ==
    LET s == RunSem(g, ins) IN
-   IF s.ok THEN MustValue(s.out) ELSE MustErrorOf(SeqOfSet(s.errc))
+   IF s.ok THEN MustValue(s.out) ELSE IF "Indefinite" \in s.errc THEN NoCrash ELSE MustErrorOf(SeqOfSet(s.errc))
 CallJ(g, ins) == [ins |-> ins, reuse |-> <<>>, allowed |-> Allowed_(g, ins)]
 CaseOf(g, ins, feat) ==
    [prop |-> "C13", fam |-> "signature", kind |-> "model", op |-> "", attrs |-> <<>>, inputs |-> <<>>, nout |-> 0,
